@@ -60,7 +60,7 @@ CHECKS = {
                 "call or raises); the reversed wrapper yields the reversed path with the same tones; EVERY permutation of the keyword pairs gives "
                 "the same ordered argument list = positionals followed by the remaining parameters in signature order (missing keyword = error). "
                 "Tie: kernels of arity 0-4 whose path encodes each argument, every split and every keyword permutation, both directions, "
-                "constant and non-constant operands, on all routes; permute compared with the argument order read back from the played paths.",
+                "constant and non-constant operands, on all routes; permute compared with the argument order read back from the played paths. The three gen methods (path/concrete.py, spec_interp.py, constprop.py) are ALSO translated from source on every run by symbolic execution with case splits on the recorded spec, the lattice values and the kind of task (harness/gen/gen3_translate.py, fail-closed) and proved equal to gen_main / gen_spec / gen_constprop (build/C05/Gen_C05_src.v), so the route-independence theorem holds of the methods as written.",
         "note": NOTE_COMMON + " kirin's const.Propagate/Fold machinery that decides WHEN folding happens is exercised, not verified.",
         "technique": "Coq proofs parametric in the tracer (incl. permutation invariance) + exhaustive small-arity correspondence",
     },
